@@ -6,6 +6,7 @@ package main
 import (
 	"fmt"
 	"math"
+	"time"
 
 	"github.com/6tail/lunar-go/SolarUtil"
 	"github.com/6tail/lunar-go/calendar"
@@ -59,9 +60,12 @@ func init() {
 		Assume: []string{"R1 integer proleptic Julian/Gregorian day-number arithmetic in the harness is correct (cross-checked against itself: r1FromJDN(r1JDN(x))==x on every state)",
 			"float64 Julian Day comparison uses a 2e-9 day tolerance (4 ulp at 2.4e6)"},
 		Shards: func(tier string, seed int64) []Shard {
-			sh := yearShardsWith(tier, seed, 9998, "days", cycleYears())
+			sh := yearShardsWith(tier, seed, 9998, "days", append(cycleYears(), 1844, 1867, 1892, 1993, 1994, 2011)) // + years in which some time zone skipped or repeated a civil day
 			sh = append(sh, Shard{Kind: "seconds", Tier: tier, Seed: seed})
 			sh = append(sh, Shard{Kind: "pairs", Tier: tier, Seed: seed})
+			for i := range c04Zones {
+				sh = append(sh, Shard{Kind: "zones", Arg: fmt.Sprint(i), Tier: tier, Seed: seed})
+			}
 			return sh
 		},
 		Run: runC04,
@@ -122,7 +126,66 @@ func runC04Pairs(w *W) {
 	}
 }
 
+// c04Zones: process time zones with civil-time anomalies (a skipped civil day at the date line, a repeated one, clock
+// changes of 30 and 60 minutes, changes at midnight). The library's civil arithmetic is zone-free; under each zone all
+// days of the years in which the zone's anomalies fall are stepped by days and hours and compared with the reference.
+var c04Zones = []string{"Pacific/Apia", "Pacific/Kiritimati", "Pacific/Kwajalein", "Asia/Manila", "America/Anchorage", "Pacific/Pago_Pago", "Asia/Shanghai", "America/New_York", "America/Havana", "Australia/Lord_Howe", "Europe/London", "UTC"}
+
+func runC04Zones(w *W) {
+	zone := c04Zones[atoi(w.Shard.Arg)%len(c04Zones)]
+	loc, err := time.LoadLocation(zone)
+	if err != nil {
+		w.R.Notes = append(w.R.Notes, "time zone "+zone+" unavailable: "+err.Error())
+		return
+	}
+	time.Local = loc
+	for _, y := range []int{1844, 1867, 1892, 1986, 1993, 1994, 2011, 2024} {
+		for j := r1JDN(y, 1, 1) - 2; j <= r1JDN(y, 12, 31)+2; j++ {
+			cy, cm, cd := r1FromJDN(j)
+			ymd := fmt.Sprintf("%04d-%02d-%02d", cy, cm, cd)
+			w.R.States++
+			if msg, p := try(func() {
+				for _, t := range []hms{{0, 30, 0}, {12, 0, 0}, {23, 30, 0}} {
+					s := calendar.NewSolar(cy, cm, cd, t.h, t.m, t.s)
+					if !solarEq(s, cy, cm, cd, t.h, t.m, t.s) || !solarEq(calendar.NewSolarFromJulianDay(s.GetJulianDay()), cy, cm, cd, t.h, t.m, t.s) {
+						w.Viol("C04:zones:fields:"+zone+":"+ymd, fmt.Sprintf("under TZ=%s the date-time %s %v does not keep its fields / Julian Day", zone, ymd, t), ymd)
+					}
+					for _, n := range []int{0, 1, -1, 2, -2, 30, -30, 366, -366} {
+						ty, tm, td := r1FromJDN(j + n)
+						w.R.Transitions++
+						if a, b := s.NextDay(n), s.Next(n, false); !solarEq(a, ty, tm, td, t.h, t.m, t.s) || !solarEq(b, ty, tm, td, t.h, t.m, t.s) || a.Subtract(s) != n {
+							w.Viol("C04:zones:NextDay:"+zone+":"+ymd, fmt.Sprintf("under TZ=%s %s.NextDay(%d) = %s, Next(%d,false) = %s, reference %04d-%02d-%02d", zone, s.ToYmdHms(), n, a.ToYmdHms(), n, b.ToYmdHms(), ty, tm, td), ymd)
+						}
+					}
+					for _, hN := range []int{1, -1, 24, -24, 25, -25, 48} {
+						tot := j*24 + t.h + hN
+						ty, tm, td := r1FromJDN(tot / 24)
+						w.R.Transitions++
+						if a := s.NextHour(hN); !solarEq(a, ty, tm, td, tot%24, t.m, t.s) {
+							w.Viol("C04:zones:NextHour:"+zone+":"+ymd, fmt.Sprintf("under TZ=%s %s.NextHour(%d) = %s, reference %04d-%02d-%02d %02d", zone, s.ToYmdHms(), hN, a.ToYmdHms(), ty, tm, td, tot%24), ymd)
+						}
+					}
+					l := s.GetLunar()
+					for _, n := range []int{1, -1, 0} {
+						if a, b := l.Next(n), s.NextDay(n).GetLunar(); fieldDigest(a) != fieldDigest(b) || !solarEq(a.GetSolar(), func() int { y, _, _ := r1FromJDN(j + n); return y }(), func() int { _, m, _ := r1FromJDN(j + n); return m }(), func() int { _, _, d := r1FromJDN(j + n); return d }(), t.h, t.m, t.s) {
+							w.Viol("C04:zones:LunarNext:"+zone+":"+ymd, fmt.Sprintf("under TZ=%s the lunar date of %s stepped by %d lands on %s", zone, s.ToYmdHms(), n, a.GetSolar().ToYmdHms()), ymd)
+						}
+					}
+				}
+			}); p {
+				w.Viol("C04:zones:panic:"+zone, "panic under TZ="+zone+" on "+ymd+": "+msg, ymd)
+			}
+		}
+	}
+	w.R.Nontrivial += w.R.Transitions
+	w.Sample(map[string]interface{}{"zone": zone, "years": []int{1844, 1867, 1892, 1986, 1993, 1994, 2011, 2024}})
+}
+
 func runC04(w *W) {
+	if w.Shard.Kind == "zones" {
+		runC04Zones(w)
+		return
+	}
 	if w.Shard.Kind == "seconds" {
 		runC04Seconds(w)
 		return
